@@ -1062,3 +1062,93 @@ class ParseSensitiveHosts(Contract):
 
     def ensures(self, I, S):
         return [("C17.sensitive-hosts-" + l, t) for l, t in sh_rekeyed(S.a["self"].fields.get("sensitive_hosts"), S.extra["n"])]
+
+
+# ---- _validate_single_exploit / _validate_single_privesc -------------------------------------------------------------
+# one definition over name lists of any length; field values carry symbolic run-time type tags.  `str(x).lower() ==
+# "none"` (the any-OS marker) is an ASSUMED function of the string (str_lower); the scenario's names are 0..n-1.
+
+from pyvc.values import intern_name, NONE_ID
+
+
+def _any_os(code):
+    return B.STR_LOWER(code) == intern_name("none")
+
+
+class _ValidateSingleDef(Contract):
+    callable_by_contract = False
+    bounded = False
+    tags = {"": ("C17", "C18")}
+    target_key, target_list = None, None
+
+    def variants(self):
+        return [f"{v}/{a}" for v in ("valid", "any") for a in ("access-str", "access-int")]
+
+    def setup(self, I, variant):
+        v, acc_kind = variant.split("/")
+        nT, nOS = z3.Int("doc_n_targets"), z3.Int("doc_nOS")
+        I.ctx.assume(z3.And(nT >= 1, nOS >= 1))
+        tgt, tgt_tag = z3.Int("def_target"), z3.Int("def_target_type")
+        os_, os_tag = z3.Int("def_os"), z3.Int("def_os_type")
+        prob, prob_tag = z3.Real("def_prob"), z3.Int("def_prob_type")
+        cost, cost_tag = z3.Real("def_cost"), z3.Int("def_cost_type")
+        acc, acc_tag = z3.Int("def_access"), z3.Int("def_access_type")
+        num = lambda t: z3.Or(t == B.TAG_INT, t == B.TAG_BOOL, t == B.TAG_FLOAT)
+        user, root = intern_name("user"), intern_name("root")
+        # the codes of strings are non-negative (None has its own, negative, code: a YAML null in these fields is a
+        # non-string and is covered by the document-level catalogue)
+        I.ctx.assume(z3.And(tgt >= 0, os_ >= 0, acc >= 0))
+        # "none" (any case) is not the name of an OS of the scenario, nor are the access words scenario names
+        I.ctx.assume(z3.ForAll([z3.Int("nn")], z3.Implies(z3.And(0 <= z3.Int("nn"), z3.Int("nn") < nOS), z3.Not(_any_os(z3.Int("nn"))))))
+        if acc_kind == "access-str":
+            access = SymV(acc, "name", pytag=acc_tag)
+            acc_ok = z3.And(acc_tag == B.TAG_STR, z3.Or(acc == user, acc == root))
+            acc_val = z3.If(acc == user, 1, 2)
+            I.ctx.assume(acc_tag == B.TAG_STR)          # this variant: the access field is some string
+        else:
+            access = SymV(acc, "int", pytag=acc_tag)
+            acc_ok = z3.And(z3.Or(acc_tag == B.TAG_INT, acc_tag == B.TAG_BOOL), z3.Or(acc == 1, acc == 2))
+            acc_val = acc
+            I.ctx.assume(acc_tag != B.TAG_STR)
+        spec = z3.And(tgt_tag == B.TAG_STR, 0 <= tgt, tgt < nT, os_tag == B.TAG_STR,
+                      z3.Or(_any_os(os_), z3.And(0 <= os_, os_ < nOS)), num(prob_tag), 0 <= prob, prob <= 1,
+                      num(cost_tag), cost > 0, acc_ok)
+        if v == "valid":
+            I.ctx.assume(spec)
+        d = PyDict({self.target_key: SymV(tgt, "name", pytag=tgt_tag), "os": SymV(os_, "name", pytag=os_tag),
+                    "prob": SymV(prob, "real", pytag=prob_tag), "cost": SymV(cost, "real", pytag=cost_tag),
+                    "access": access}, fresh=False)
+        lo = loader_obj(I, os=names_seq(nOS, "os"), **{self.target_list: names_seq(nT, self.target_list)})
+        S = Scope()
+        S.extra.update(variant=v, spec=spec, d=d, os=os_, acc_val=acc_val)
+        S.a = {"self": lo}
+        S.call_args = ([lo, "e_name", d], {})
+        return S
+
+    def modifies(self, I, S):
+        return [S.extra["d"]]            # the definition is normalised in place (os -> None, access -> 1 | 2)
+
+    def allowed_exception(self, I, S, exc):
+        return S.extra["variant"] == "any"
+
+    def ensures(self, I, S):
+        d, e = S.extra["d"], S.extra
+        os_after, acc_after = d.d.get("os"), d.d.get("access")
+        norm_os = z3.If(_any_os(e["os"]), z3.IntVal(NONE_ID), e["os"])
+        return [("C18.accepted-definition-is-valid", e["spec"]),
+                ("C17.os-normalised", nameval(os_after) == norm_os),
+                ("C17.access-normalised-to-level", ival(acc_after) == e["acc_val"] if isinstance(acc_after, (SymV, int)) and
+                 not isinstance(acc_after, bool) and (not isinstance(acc_after, SymV) or acc_after.ty == "int")
+                 else z3.BoolVal(False))]
+
+
+@contract
+class ValidateSingleExploit(_ValidateSingleDef):
+    qualname = LQ + "_validate_single_exploit"
+    target_key, target_list = "service", "services"
+
+
+@contract
+class ValidateSinglePrivesc(_ValidateSingleDef):
+    qualname = LQ + "_validate_single_privesc"
+    target_key, target_list = "process", "processes"
